@@ -119,10 +119,10 @@ def reference(mlines, states, rescans):
                         contract.append("state %d: janet_gcunrootall(%d:%d) left %d id-equal root(s)" % (si - 1, pending[1][0], pending[1][1], got[c]))
                         expect = got
                     else:
-                        viol.append("state %d: roots multiset after %s differs: expected %s, implementation %s" % (si - 1, pending, sorted(expect.items()), sorted(got.items())))
+                        viol.append("multiset-differs|state %d: roots multiset after %s differs: expected %s, implementation %s" % (si - 1, pending, sorted(expect.items()), sorted(got.items())))
                         expect = got
                 else:
-                    viol.append("state %d: roots multiset after %s differs: expected %s, implementation %s" % (si - 1, pending, sorted(expect.items()), sorted(got.items())))
+                    viol.append("multiset-differs|state %d: roots multiset after %s differs: expected %s, implementation %s" % (si - 1, pending, sorted(expect.items()), sorted(got.items())))
                     expect = got
             # reachable from the roots array => allocated
             seen, stack = set(), [p for (t, p) in roots if t in REF_TYPES and p < 900000]
@@ -134,11 +134,11 @@ def reference(mlines, states, rescans):
                 stack.extend(arrays.get(x, []))
             lost = sorted(seen - live)
             if lost:
-                viol.append("state %d: block(s) %s reachable from janet_vm.roots are no longer allocated" % (si - 1, lost[:5]))
+                viol.append("rooted-block-freed|state %d: block(s) %s reachable from janet_vm.roots are no longer allocated" % (si - 1, lost[:5]))
             if prev is not None:
                 ran = int(kv["ncoll"]) - int(prev[0]["ncoll"])
                 if ran and int(prev[0]["susp"]) != 0:
-                    viol.append("state %d: a collection ran while gc_suspend was %s" % (si - 1, prev[0]["susp"]))
+                    viol.append("collection-while-suspended|state %d: a collection ran while gc_suspend was %s" % (si - 1, prev[0]["susp"]))
                 if pending and pending[0] in ("collect", "safepoint"):
                     if ran:
                         stats["collects_run"] += 1
@@ -146,11 +146,11 @@ def reference(mlines, states, rescans):
                         floating = sorted((live - seen))
                         # every created block not reachable from the array must be gone after a collection that ran
                         if floating:
-                            viol.append("state %d: unreachable block(s) %s survived a collection" % (si - 1, floating[:5]))
+                            viol.append("unreachable-block-survived|state %d: unreachable block(s) %s survived a collection" % (si - 1, floating[:5]))
                     elif int(prev[0]["susp"]) != 0:
                         stats["collects_suppressed"] += 1
                 if not ran and prev[2] - live:
-                    viol.append("state %d: block(s) %s freed without a collection" % (si - 1, sorted(prev[2] - live)[:5]))
+                    viol.append("freed-without-collection|state %d: block(s) %s freed without a collection" % (si - 1, sorted(prev[2] - live)[:5]))
             prev = (kv, roots, live)
             pending = None
             continue
